@@ -1,3 +1,3 @@
 SPECIFICATION Spec
-INVARIANTS Finished NoDataRace EveryRowArrived OwnGeometryOnly SourceOrder
+INVARIANTS Finished NoDataRace EveryRowArrived FaultNotSilent OwnGeometryOnly SourceOrder
 CHECK_DEADLOCK FALSE
